@@ -227,7 +227,7 @@ func (c *Ctx) writeThrough(rule string) {
 			nWrites++
 			key := fkey(fn) + ":conn-write"
 			ok, why := false, ""
-			if core.MethodIs(fn, pkBuffer, "Writer", "End") {
+			if c.endUnit()[fn] {
 				if fr, isf := core.FieldOfValue(cc.Value); isf && fr.Is(pkBuffer, "Writer", "Writer") {
 					ok, why = true, "the frame write inside Writer.End"
 				}
@@ -257,7 +257,7 @@ func (c *Ctx) writeThrough(rule string) {
 				}
 				okFn := c.P.InPkg(fn, "buffer") && core.NamedOf(fnRecv(fn)) != nil && core.NamedOf(fnRecv(fn)).Obj().Name() == "Writer"
 				if fr.Name == "Writer" {
-					okFn = core.MethodIs(fn, pkBuffer, "Writer", "End") || core.FuncIs(fn, pkBuffer, "NewWriter")
+					okFn = c.endUnit()[fn] || core.FuncIs(fn, pkBuffer, "NewWriter")
 				}
 				if fn.Name() == "NewWriter" && c.P.InPkg(fn, "buffer") {
 					okFn = true
@@ -445,11 +445,27 @@ func (c *Ctx) c02WriterImpl() {
 
 	// --- End
 	var connWrites []*ssa.Call
-	for _, ci := range core.Calls(end) {
-		cc := ci.Common()
-		if cc.IsInvoke() && cc.Method.Name() == "Write" {
-			if call, ok := ci.(*ssa.Call); ok {
-				connWrites = append(connWrites, call)
+	wfn := end // the function that patches the length and writes the frame: End, or a private step End calls
+	var flushCall ssa.CallInstruction
+	writesIn := func(fn *ssa.Function) []*ssa.Call {
+		var out []*ssa.Call
+		for _, ci := range core.Calls(fn) {
+			cc := ci.Common()
+			if cc.IsInvoke() && cc.Method.Name() == "Write" {
+				if call, ok := ci.(*ssa.Call); ok {
+					out = append(out, call)
+				}
+			}
+		}
+		return out
+	}
+	connWrites = writesIn(end)
+	if len(connWrites) == 0 {
+		for _, ci := range core.Calls(end) {
+			h := core.StaticCallee(ci)
+			if h != nil && c.P.InPkg(h, "buffer") && h.Blocks != nil && c.onlyCaller(h) == ci && len(writesIn(h)) > 0 {
+				wfn, flushCall, connWrites = h, ci, writesIn(h)
+				R.Analysed(fname(h))
 			}
 		}
 	}
@@ -459,7 +475,11 @@ func (c *Ctx) c02WriterImpl() {
 	}
 	w := connWrites[0]
 	R.OK("C02.R4", "End:single-connection-write", c.at(w), "End hands the frame to the connection in exactly one Write call", "one invoke of io.Writer.Write")
-	R.Check(anyDominates(c.latchNilEdges(end), w.Block()), "C02.R4", "End:latch-before-write", c.at(w), "a frame with a latched error is never written", "the Write is dominated by the latch's nil edge", "the connection write is not dominated by the nil edge of the error latch")
+	latched := anyDominates(c.latchNilEdges(wfn), w.Block())
+	if flushCall != nil && anyDominates(c.latchNilEdges(end), flushCall.Block()) {
+		latched = true
+	}
+	R.Check(latched, "C02.R4", "End:latch-before-write", c.at(w), "a frame with a latched error is never written", "the Write is dominated by the latch's nil edge", "the connection write is not dominated by the nil edge of the error latch")
 	buf := w.Call.Args[0]
 	bcall, ok := buf.(*ssa.Call)
 	whole := ok && isBytesBufferMethod(bcall, "Bytes")
@@ -467,7 +487,7 @@ func (c *Ctx) c02WriterImpl() {
 	// length back-patch
 	patched := false
 	why := "no PutUint32 dominating the write"
-	for _, ci := range core.Calls(end) {
+	for _, ci := range core.Calls(wfn) {
 		f := core.StaticCallee(ci)
 		if f == nil || f.Name() != "PutUint32" || f.Pkg == nil || f.Pkg.Pkg.Path() != "encoding/binary" {
 			continue
